@@ -1,0 +1,13 @@
+//go:build verif
+
+// Contracts for the verification machinery in /verif (comment-only; no declarations).
+// C04: a stream whose protocol negotiation fails is reset. C07: negotiated protocol / handler dispatch.
+
+package basichost
+
+//@ func (h *BasicHost) NewStream
+//@ prop C04 C07
+//@ ensures strErr != nil && called(NewStream, 0) && ret(NewStream, 0, 1) == nil && ret(NewStream, 0, 0) != nil ==>
+//@         called(ResetWithError, 0) && arg(ResetWithError, 0, 0) == ret(NewStream, 0, 0)
+//@ ensures strErr != nil ==> str == nil
+//@ noframe
